@@ -134,6 +134,11 @@ class CFG:
     def _new(self, kind, astnode):
         n = Node(len(self.nodes), kind, astnode)
         self.nodes.append(n)
+        if kind == 'test' and astnode is not None and getattr(astnode, 'test', None) is not None:
+            # names bound by assignment expressions inside the condition (`if verbose and (k := i + 1) % 100 == 0:`)
+            for x in ast.walk(astnode.test):
+                if isinstance(x, ast.NamedExpr):
+                    n.defs.extend(target_names(x.target))
         if astnode is not None and kind not in ('entry',) and astnode not in self.by_ast:
             self.by_ast[astnode] = n
         if self._tries_active():
